@@ -88,18 +88,25 @@ def main():
     ap.add_argument("--tests", action="store_true")
     ap.add_argument("--tier", default="quick")
     ap.add_argument("--seed", type=int, default=0)
+    ap.add_argument("--merge-only", action="store_true")
     ap.add_argument("--dir", default="seeded", help="seeded (sub-agent changes) or mutants (hand-written)")
     a = ap.parse_args()
     names = a.names or sorted(n for n in os.listdir(os.path.join(HERE, a.dir))
                               if os.path.isdir(os.path.join(HERE, a.dir, n)))
     path = os.path.join(HERE, a.dir, "RESULTS.json")
-    allres = json.load(open(path)) if os.path.exists(path) else {}
-    for n in names:
-        r = evaluate(n, tests=a.tests, tier=a.tier, seed=a.seed, base=a.dir)
-        allres[n] = r
-        print(json.dumps(r, indent=1))
-        with open(path, "w") as f:
-            json.dump(allres, f, indent=1, sort_keys=True)
+    if not a.merge_only:
+        for n in names:
+            r = evaluate(n, tests=a.tests, tier=a.tier, seed=a.seed, base=a.dir)
+            print(json.dumps(r, indent=1))
+            with open(os.path.join(HERE, a.dir, n, "result.json"), "w") as f:  # one file per change: evaluators can
+                json.dump(r, f, indent=1, sort_keys=True)                     # run in parallel on disjoint subsets
+    allres = {}
+    for n in sorted(os.listdir(os.path.join(HERE, a.dir))):
+        rp = os.path.join(HERE, a.dir, n, "result.json")
+        if os.path.exists(rp):
+            allres[n] = json.load(open(rp))
+    with open(path, "w") as f:
+        json.dump(allres, f, indent=1, sort_keys=True)
 
 
 if __name__ == "__main__":
